@@ -328,6 +328,12 @@ def bounded(ctx):
             B.case(("m", eb, k), sample=case if k == 2 else None)
             if msg:
                 B.fail("merge-preserves-pairs", case, msg)
+            # zero-length and one-byte payloads in the merged caches (a (URI, b"") pair is a pair like any other)
+            gz = [[(f"#z{g}_{i}", _payload([0, 1, 0, 3][(g + i) % 4], g)) for i in range(1 + (g + k) % 3)] for g in range(k)]
+            case, msg = run_merge(B, eb, gz)
+            B.case(("mz", eb, k))
+            if msg:
+                B.fail("merge-preserves-pairs", case, msg)
             if k >= 2:
                 # duplicate across inputs (first slot of first cache repeated as last slot of last cache, and others)
                 for (ga, ia), (gb, ib) in (((0, 0), (k - 1, len(groups[k - 1]) - 1)), ((0, len(groups[0]) - 1), (1, 0))):
